@@ -35,6 +35,7 @@ RULE = ('Constraint sets in the documented format: (a) hand-built by the C02 '
         'change neither text nor verdicts. Non-trivial: a date-valued or '
         'precision-qualified bound or a non-ASCII / escape-bearing string, '
         'and >=1 verdict decided by data; distinct by case hash.')
+RULE += ' ' + "Also: the serialised text must say what the set given says (same fields in order, same kinds, same values, date bounds compared as instants); the file rewritten in place after a same-size decoy was loaded from the same path; the caller's dictionary unchanged after loading and verifying; relation names (lt, gte, eq ...) among the unknown kinds; microsecond values that are not exact binary fractions."
 ASSUMPTIONS = ['the text is compared for write/load cycles on the same path '
                '(loading records the path as creation_metadata.tddafile, as '
                'the command line does when it writes the file); across '
